@@ -22,8 +22,16 @@ pub enum Point {
     DropAfter { j: usize, s: Option<usize> },
     /// the XML transformer fails
     XmlFail,
-    /// hard device error at this operation (inside the top-level finalize), then drop
-    FinalizeError { at: u64 },
+    /// device error at this operation (inside the top-level finalize), then drop; eintr: the
+    /// error is ErrorKind::Interrupted instead of a hard error
+    FinalizeError {
+        at: u64,
+        #[serde(default)]
+        eintr: bool,
+    },
+    /// the device is not empty: it still holds an older complete E57 file (cursor at 0) when the
+    /// writer is created; crash after the first k device writes
+    Prefilled { k: usize },
 }
 
 #[derive(Clone, Debug, Serialize, Deserialize)]
@@ -210,7 +218,13 @@ fn run_case(case: &Case, st: &mut RunStats) -> Outcome<Case> {
             }
             points.push(Point::XmlFail);
             for o in log.iter().filter(|o| o.no >= fin_from && o.no < exec.drop_op_from) {
-                points.push(Point::FinalizeError { at: o.no });
+                points.push(Point::FinalizeError { at: o.no, eintr: false });
+                if matches!(o.kind, OpKind::Seek | OpKind::Flush) {
+                    points.push(Point::FinalizeError { at: o.no, eintr: true });
+                }
+            }
+            for k in [0usize, 1, 2] {
+                points.push(Point::Prefilled { k });
             }
         }
     }
@@ -260,8 +274,50 @@ fn run_case(case: &Case, st: &mut RunStats) -> Outcome<Case> {
                 }
                 (d2.image(), true)
             }
-            Point::FinalizeError { at } => {
-                let c2 = new_ctx(vec![Fault { at: *at, kind: FaultKind::Error }]);
+            Point::Prefilled { k } => {
+                // an older complete file: the same program with another file GUID and without its last item
+                let mut old_prog = case.prog.clone();
+                old_prog.guid = format!("{}-older", old_prog.guid);
+                old_prog.calls.pop();
+                old_prog.end = End::Finalize;
+                let c0 = new_ctx(vec![]);
+                let d0 = SimDisk::new(&c0, DEV_DISK, Vec::new(), &Chunk::Full);
+                let e0 = exec_program(&old_prog, &c0, &d0);
+                if !e0.completed {
+                    continue;
+                }
+                let old_image = d0.image();
+                let c2 = new_ctx(vec![]);
+                {
+                    let mut c = c2.borrow_mut();
+                    c.record_ops = true;
+                    c.record_writes = true;
+                }
+                let d2 = SimDisk::new(&c2, DEV_DISK, old_image.clone(), &case.wchunk);
+                let e2 = exec_program(&case.prog, &c2, &d2);
+                st.absorb_ctx(&c2);
+                st.probe("device_prefilled_with_older_file", true);
+                if e2.calls.first().map(|c| !c.ok).unwrap_or(true) {
+                    // the writer refused the non-empty device: nothing was written
+                    if d2.image() != old_image {
+                        return Outcome::fail_narrowed("refused-but-modified", "E57Writer::new refused a non-empty device but modified it".to_string(), Case { point: Some(pt.clone()), ..case.clone() });
+                    }
+                    continue;
+                }
+                // the writer accepted the device: the image after the first k device writes
+                let w2: Vec<(u64, Vec<u8>)> = c2.borrow().log.iter().filter(|o| o.dev == DEV_DISK && o.kind == OpKind::Write && o.moved > 0).map(|o| (o.offset, o.data.clone().unwrap_or_default())).collect();
+                let mut img = old_image.clone();
+                for (off, data) in w2.iter().take(*k) {
+                    let off = *off as usize;
+                    if img.len() < off + data.len() {
+                        img.resize(off + data.len(), 0);
+                    }
+                    img[off..off + data.len()].copy_from_slice(data);
+                }
+                (img, true)
+            }
+            Point::FinalizeError { at, eintr } => {
+                let c2 = new_ctx(vec![Fault { at: *at, kind: if *eintr { FaultKind::Interrupted } else { FaultKind::Error } }]);
                 if std::env::var("E57SIM_TRACE").is_ok() {
                     c2.borrow_mut().record_ops = true;
                 }
@@ -279,7 +335,7 @@ fn run_case(case: &Case, st: &mut RunStats) -> Outcome<Case> {
                 st.absorb_ctx(&c2);
                 st.probe("device_error_inside_finalize", true);
                 // accepted only if complete: judged like a crash image; finalize must not have reported Ok
-                if e2.completed {
+                if e2.completed && !*eintr {
                     return Outcome::fail_narrowed("device-error-swallowed", format!("device error at op {at} inside finalize, yet finalize returned Ok"), Case { point: Some(pt.clone()), ..case.clone() });
                 }
                 (d2.image(), false)
@@ -344,7 +400,7 @@ impl Prop for C15 {
     fn meta(&self) -> Meta {
         Meta {
             level: "fault_enumeration",
-            rule: "per run index one small seeded writer program (C01 generator, 0-4 items, knob on, <= 40 points, payloads <= 2.6 KiB) executed fault-free with the device write log recorded (full-page writes on even indices, seeded short writes on odd ones); then exhaustively per program: EVERY prefix k of the device writes x cut positions t in {1,16,24,25,32,33,34,40,47,48,511,512,1000,1019,1020,1021,1023 (+256,512,768 sector cuts in thorough)} of write k+1 (image(k,t) rebuilt from the log); 'run the first j calls (last one cut to its first s steps and abandoned), then drop everything' for every j, s; failing XML transformer; a hard device error at every device operation inside the top-level finalize. Oracle per image: E57Reader::new fails, or the image lists the same point clouds and images as the completed file and every read operation (xml, listings, raw+simple iteration, all blobs) is Err or equals the completed file's result; every image whose last write precedes the start of the top-level finalize is rejected. Distinct = (program shape, crash point); every enumerated image counts as non-trivial".into(),
+            rule: "per run index one small seeded writer program (C01 generator, 0-4 items, knob on, <= 40 points, payloads <= 2.6 KiB) executed fault-free with the device write log recorded (full-page writes on even indices, seeded short writes on odd ones); then exhaustively per program: EVERY prefix k of the device writes x cut positions t in {1,16,24,25,32,33,34,40,47,48,511,512,1000,1019,1020,1021,1023 (+256,512,768 sector cuts in thorough)} of write k+1 (image(k,t) rebuilt from the log); 'run the first j calls (last one cut to its first s steps and abandoned), then drop everything' for every j, s; failing XML transformer; a hard device error at every device operation inside the top-level finalize (and ErrorKind::Interrupted at every seek and flush there); a device that still holds an older complete file when the writer is created (the writer must refuse it untouched, or no image may present the older file). Oracle per image: E57Reader::new fails, or the image lists the same point clouds and images as the completed file and every read operation (xml, listings, raw+simple iteration, all blobs) is Err or equals the completed file's result; every image whose last write precedes the start of the top-level finalize is rejected. Distinct = (program shape, crash point); every enumerated image counts as non-trivial".into(),
             assumptions: vec![
                 "writes reach the device in issue order (no reordering, no loss of earlier writes)".into(),
                 "a torn write leaves a byte prefix of the write on the device".into(),
@@ -356,6 +412,7 @@ impl Prop for C15 {
                 "abandoned_subwriter_then_drop".into(),
                 "transformer_failure".into(),
                 "device_error_inside_finalize".into(),
+                "device_prefilled_with_older_file".into(),
                 "short_write_schedule".into(),
                 "torn_cut_inside_header_field_16_24".into(),
                 "torn_cut_inside_header_field_24_32".into(),
